@@ -110,17 +110,24 @@ def cases(tier, seed):
         out.append(dict(id='many-%d' % rep, kind='many', seed=seed * 523 + rep, count=2))
     for rep in range(30 if thorough else 6):
         out.append(dict(id='refrag-%d' % rep, kind='refrag', seed=seed * 541 + rep, count=10))
+    for rep in range(12 if thorough else 3):
+        out.append(dict(id='signed-%d' % rep, kind='signed', seed=seed * 587 + rep, count=6))
     return out
 
 
-def run_history(arrivals, originals, obs):
+def run_history(arrivals, originals, obs, verifying=None):
     ''' arrivals: list of (bundle key, lo, hi, encoded fragment); originals: key -> (total, payload, exts).
+    verifying: None, or dict(accept=bool): the destination is an agent that holds the keys and verifies security blocks
     :return: problems list
     '''
     from vf.world.sim import Sim
     from vf import bp_harness as bh
     sim = Sim(0, 'eager')
-    node = bh.BpNode(sim, NODE, rx_routes=[(r'dtn://me/.*', 'deliver')], tx_routes=[dict(pattern=r'.*')])
+    if verifying is not None:
+        from vf import sec_harness as sh
+        node = sh.receiver_node(sim, 'all', accept=verifying['accept'])
+    else:
+        node = bh.BpNode(sim, NODE, rx_routes=[(r'dtn://me/.*', 'deliver')], tx_routes=[dict(pattern=r'.*')])
     coverage = {key: set() for key in originals}
     done = set()
     problems = []
@@ -225,7 +232,44 @@ def run_case(case):
                                    detail=dict(arrivals=[(str(a[0]), a[1], a[2]) for a in arrivals][:40], same_offset_pair=same_offset)))
 
     kind = case['kind']
-    if kind == 'perm':
+    if kind == 'signed':
+        # the bundle carries an integrity block made by a real source agent (it travels in the first fragment like any other
+        # extension block); the destination holds the key and verifies: the fragments still reassemble to ONE delivered bundle
+        from vf.props import c03
+        for rep in range(case['count']):
+            crc = (rep + case['seed']) % 3
+            plen = rng.choice([12, 30, 64])
+            seq = 500 + rep
+            bundle = c03.base_bundle(rng, plen, next_=rng.choice([0, 1]), crc=crc, seq=seq)
+            bundle['primary']['flags'] = 0
+            data = c03.produce('mac0-256', bundle)
+            if data is None:
+                continue
+            dec = bpv7.decode(data)[0]
+            payload = [blk for blk in dec['blocks'] if blk['type'] == 1][0]['data']
+            accept = bool(rep % 2)
+            exts = [dict(blk, crc=None) for blk in dec['blocks'] if blk['type'] != 1]
+            key = (dec['primary']['src'], dec['primary']['create_time'], dec['primary']['seqno'])
+            cuts = sorted(set([0, plen] + rng.sample(range(1, plen), rng.choice([1, 2, 3]))))
+            arrivals = []
+            for lo, hi in zip(cuts, cuts[1:]):
+                pri = dict(dec['primary'], flags=dec['primary']['flags'] | bpv7.FLAG_IS_FRAGMENT, frag_offset=lo, total_adu_len=plen, crc=None)
+                blocks = [dict(blk) for blk in exts if lo == 0 or blk['flags'] & bpv7.BLK_REPLICATE]
+                blocks.append(dict(type=1, num=1, flags=0, crc_type=crc, data=payload[lo:hi], crc=None))
+                arrivals.append((key, lo, hi, bpv7.encode(dict(primary=pri, blocks=blocks))))
+            rng.shuffle(arrivals)
+            # (an accepted integrity block is removed from the delivered bundle)
+            want_exts = [blk for blk in exts if not (accept and blk['type'] == 11)]
+            problems = run_history(arrivals, {key: (plen, payload, want_exts)}, obs, verifying=dict(accept=accept))
+            obs['signed_histories'] = obs.get('signed_histories', 0) + 1
+            evaluations += 1
+            classes.add(hash(('signed', crc, accept, tuple((a[1], a[2]) for a in arrivals))) & 0xFFFFFFFFFFFF)
+            if sample is None:
+                sample = dict(kind='signed', arrivals=[(str(a[0]), a[1], a[2]) for a in arrivals[:8]])
+            for item in problems:
+                violations.append(dict(key=None, what='[signed, primary CRC type %d, accept=%s] %s' % (crc, accept, item),
+                                       detail=dict(arrivals=[(str(a[0]), a[1], a[2]) for a in arrivals], crc=crc, accept=accept)))
+    elif kind == 'perm':
         keys = _bundle_set(rng, 1)
         while True:
             originals, arrivals = _make_arrivals(rng, keys, case['split'], total_choices=(12, 30))
